@@ -6,6 +6,8 @@ import (
 	"fmt"
 	"io"
 	"log"
+	"runtime"
+	"strings"
 	"time"
 
 	"github.com/hedzr/is"
@@ -336,14 +338,37 @@ func (s *handlerWriter) Write(buf []byte) (n int, err error) {
 	if s.l.EnabledContext(context.Background(), s.lvl) {
 		var pc uintptr
 		if s.capturePC {
-			// skip [runtime.Callers, s.Write, Logger.Output, log.Print]
-			pc = getpc(4, s.extraFrames+s.l.Skip())
+			pc = stdlogCallerPC(s.extraFrames + s.l.Skip())
 		}
 		if h, ok := s.l.(LogLoggerAware); ok {
 			n, err = h.WriteInternal(context.Background(), s.lvl, pc, buf)
 		}
 	}
 	return
+}
+
+// stdlogCallerPC returns the pc of the statement that called into package
+// log, extra frames further up.
+//
+// How many frames package log puts between that statement and Write
+// depends on the function that was called: Print, Printf and Println reach
+// Write through (*log.Logger).output, the Panic and Fatal functions go
+// through (*log.Logger).Output first, and the package-level functions
+// differ again. So the frames of package log are skipped by name, not by
+// count.
+func stdlogCallerPC(extra int) uintptr {
+	var pcs [8]uintptr
+	// skip [runtime.Callers, stdlogCallerPC, handlerWriter.Write]
+	n := runtime.Callers(3, pcs[:])
+	for i := 0; i < n; i++ {
+		if fn := runtime.FuncForPC(pcs[i] - 1); fn == nil || !strings.HasPrefix(fn.Name(), "log.") {
+			// pcs[i] is what getpc finds when it is asked to skip
+			// [runtime.Callers, getpc, stdlogCallerPC, handlerWriter.Write]
+			// and the i frames of package log
+			return getpc(3+i, extra)
+		}
+	}
+	return 0
 }
 
 var errUnmatchedPair = errors.New("unmatched (key,value) pair")
